@@ -1,19 +1,478 @@
 // Injected as `#[cfg(kani)] mod verif_kani_selector2;` (child of crate::jsonpath::selector).
-// Bounded twins (level "bounded") of the Verus units for C08 / C15 / C17: the REAL Selector is run on flat documents
-// built by the README layout spec (crate::verif_kani_spec) from concrete-shape constructors (every payload width is a
-// constant, so every offset is a constant for CBMC; types and bytes are symbolic).  JsonPath values are built by hand.
-// Every `select` appends to NON-EMPTY `data` / `offsets` buffers; the expected result is computed on the element list.
-#![allow(unused_imports, dead_code)]
+// Bounded twins (level "bounded") of the Verus units for C08 / C15 / C17.  Documents are flat README layouts built from
+// concrete-shape constructors (crate::verif_kani_spec): every payload width is a constant, types and bytes are symbolic.
+//
+// WHY THE TWINS ARE COMPOSITIONAL (measured): `Position` is an enum whose variants have different layouts; Kani/CBMC
+// keep such payloads in a union and lose constant propagation through it, so inside `Selector::select` every offset and
+// length read back from the position queue is symbolic for the symbolic executor (symbolic-size allocations and copies,
+// every loop unwound to the bound).  `select` / `find_positions` on a 2-element array exhaust memory after > 20 min.
+// Therefore:
+//   * the position finders (select_by_indices / select_by_name / select_object_values / select_array_values,
+//     convert_slice) are called DIRECTLY with a concrete container offset and their positions are compared with the
+//     element list (which element, type, absolute payload offset, length; order follows the path);
+//   * the result builders and the mode dispatch are exercised through the REAL `select` / `exists` / `predicate_match`
+//     with `find_positions` stubbed by the positions the harness wants (fp_stub): appended bytes, absolute offsets,
+//     prior contents, First / Array / Mixed / All consistency, predicate results;
+//   * the comparison semantics of filters (literal on either side, existential over several values) through
+//     `compare` / `compare_value`.
+// The glue loop of `find_positions` itself and `filter_expr` over paths are NOT covered by these twins.
+// All harnesses use `unwind(6)`: harness-side loops are nested loops of at most 5 iterations.
+#![allow(unused_imports, dead_code, static_mut_refs)]
 use super::*;
 use crate::verif_kani_spec::*;
 
+// ------------------------------------------------------------------ README layout with short loops
+/// append at most 16 bytes
+fn put(b: &mut Buf, s: &[u8]) {
+    assert!(s.len() <= 16);
+    let mut c = 0;
+    while c < 4 {
+        let mut j = 0;
+        while j < 4 {
+            let i = c * 4 + j;
+            if i < s.len() {
+                b.push(s[i]);
+            }
+            j += 1;
+        }
+        c += 1;
+    }
+}
+
+/// header ‖ entry words ‖ payloads (the same bytes as verif_kani_spec::layout_array; see ks_lay_agrees)
+fn lay_array(items: &[It]) -> Buf {
+    assert!(items.len() <= 4);
+    let mut b = Buf::new();
+    b.push_u32(ARRAY | items.len() as u32);
+    let mut i = 0;
+    while i < items.len() {
+        b.push_u32(items[i].word);
+        i += 1;
+    }
+    i = 0;
+    while i < items.len() {
+        put(&mut b, items[i].payload());
+        i += 1;
+    }
+    b
+}
+
+/// header ‖ key entry words ‖ value entry words ‖ key bytes ‖ value payloads
+fn lay_object(keys: &[It], vals: &[It]) -> Buf {
+    assert!(keys.len() <= 3 && vals.len() == keys.len());
+    let mut b = Buf::new();
+    b.push_u32(OBJECT | keys.len() as u32);
+    let mut i = 0;
+    while i < keys.len() {
+        b.push_u32(keys[i].word);
+        i += 1;
+    }
+    i = 0;
+    while i < vals.len() {
+        b.push_u32(vals[i].word);
+        i += 1;
+    }
+    i = 0;
+    while i < keys.len() {
+        put(&mut b, keys[i].payload());
+        i += 1;
+    }
+    i = 0;
+    while i < vals.len() {
+        put(&mut b, vals[i].payload());
+        i += 1;
+    }
+    b
+}
+
+/// a document of at most 16 bytes as a CONTAINER element
+fn cont(d: &Buf) -> It {
+    assert!(d.n <= 16);
+    let mut pay = [0u8; PAYMAX];
+    let mut c = 0;
+    while c < 4 {
+        let mut j = 0;
+        while j < 4 {
+            let i = c * 4 + j;
+            if i < d.n {
+                pay[i] = d.b[i];
+            }
+            j += 1;
+        }
+        c += 1;
+    }
+    It { word: T_CONTAINER | d.n as u32, pay, plen: d.n }
+}
+
+/// Float64 element (payload width 9) with symbolic mantissa/exponent bytes
+fn f9() -> It {
+    let mut pay = [0u8; PAYMAX];
+    pay[0] = 0x60;
+    pay[1] = kani::any();
+    pay[2] = kani::any();
+    pay[8] = kani::any();
+    It { word: T_NUMBER | 9, pay, plen: 9 }
+}
+
+/// the stand-alone document of an element: containers verbatim, scalars under a scalar header
+fn doc_of(it: &It) -> Buf {
+    let mut b = Buf::new();
+    if it.ty() != T_CONTAINER {
+        b.push_u32(SCALAR);
+        b.push_u32(it.word);
+    }
+    put(&mut b, it.payload());
+    b
+}
+
+/// data[pos .. pos + d.n] == d
+fn eq_at(d: &Buf, data: &[u8], pos: usize) -> bool {
+    if pos + d.n > data.len() {
+        return false;
+    }
+    let mut ok = true;
+    let mut a = 0;
+    while a < 3 {
+        let mut c = 0;
+        while c < 4 {
+            let mut j = 0;
+            while j < 4 {
+                let i = a * 16 + c * 4 + j;
+                if i < d.n && d.b[i] != data[pos + i] {
+                    ok = false;
+                }
+                j += 1;
+            }
+            c += 1;
+        }
+        a += 1;
+    }
+    ok
+}
+
+/// payload offsets of the elements of an array document that starts at `base`
+fn array_offsets(base: usize, a: &[It]) -> [usize; 4] {
+    let mut o = [0usize; 4];
+    let mut pos = base + 4 + 4 * a.len();
+    let mut i = 0;
+    while i < a.len() {
+        o[i] = pos;
+        pos += a[i].plen;
+        i += 1;
+    }
+    o
+}
+
+/// the short-loop layout functions produce the same bytes as the shared README layout spec
+#[kani::proof]
+#[kani::unwind(50)]
+fn ks_lay_agrees() {
+    let k = [key1(), key2(), key2()];
+    let v = [sc_w2().it, sc_w0().it, sc_str1().it];
+    assert!(lay_object(&k, &v).eq_slice(layout_object(&k, &v).as_slice()));
+    let inner = lay_array(&[v[2], v[1]]);
+    assert!(cont(&inner).same(&it_array(&[v[2], v[1]])));
+    let a = [v[0], cont(&inner), f9(), v[1]];
+    assert!(lay_array(&a).eq_slice(layout_array(&a).as_slice()));
+    assert!(doc_of(&a[0]).eq_slice(a[0].doc().as_slice()));
+    assert!(doc_of(&a[1]).eq_slice(a[1].doc().as_slice()));
+    assert!(doc_of(&a[2]).eq_slice(a[2].doc().as_slice()));
+}
+
+// ------------------------------------------------------------------ positions
+fn selector0() -> Selector<'static> {
+    Selector::new(JsonPath { paths: vec![] }, Mode::All)
+}
+
+/// the next position is element `it` whose payload starts at absolute offset `off`
+fn expect_pos(q: &mut VecDeque<Position>, it: &It, off: usize) {
+    match q.pop_front() {
+        Some(Position::Scalar((ty, o, l))) => {
+            assert!(it.ty() != T_CONTAINER);
+            assert!(ty == it.ty() && o == off && l == it.plen);
+        }
+        Some(Position::Container((o, l))) => {
+            assert!(it.ty() == T_CONTAINER);
+            assert!(o == off && l == it.plen);
+        }
+        None => { assert!(false); }
+    }
+}
+
+fn any_index(lo: i32, hi: i32) -> (Index, bool, i32) {
+    let is_last: bool = kani::any();
+    let v: i32 = kani::any();
+    kani::assume(v >= lo && v <= hi);
+    (if is_last { Index::LastIndex(v) } else { Index::Index(v) }, is_last, v)
+}
+
+fn resolve(is_last: bool, v: i32, len: i64) -> i64 {
+    if is_last { len - 1 + v as i64 } else { v as i64 }
+}
+
+/// C08 `$[2, 4, 0, 5 to 9, last-1 to last]` on [w2, null|bool, str1, float] (widths 2,0,1,9): the positions are the
+/// elements 2, 0, 2, 3 in PATH order (descending and repeated indices, out-of-range index and range dropped, a range
+/// touching the end), each with its type, absolute payload offset and length
+#[kani::proof]
+#[kani::unwind(6)]
+fn ks_pick_indices() {
+    let a = [sc_w2().it, sc_w0().it, sc_str1().it, f9()];
+    let doc = lay_array(&a);
+    let offs = array_offsets(0, &a);
+    let ix = vec![
+        ArrayIndex::Index(Index::Index(2)),
+        ArrayIndex::Index(Index::Index(4)),
+        ArrayIndex::Index(Index::Index(0)),
+        ArrayIndex::Slice((Index::Index(5), Index::Index(9))),
+        ArrayIndex::Slice((Index::LastIndex(-1), Index::LastIndex(0))),
+    ];
+    let sel = selector0();
+    let mut q = VecDeque::new();
+    assert!(sel.select_by_indices(doc.as_slice(), 0, &ix, &mut q).is_ok());
+    assert!(q.len() == 4);
+    expect_pos(&mut q, &a[2], offs[2]);
+    expect_pos(&mut q, &a[0], offs[0]);
+    expect_pos(&mut q, &a[2], offs[2]);
+    expect_pos(&mut q, &a[3], offs[3]);
+}
+
+/// C08 `$[i]` / `$[last + k]` with a symbolic i, k in -4..=4 on [null|bool, w2, str1]: exactly the element with that
+/// index, or nothing when it is out of range
+#[kani::proof]
+#[kani::unwind(6)]
+fn ks_pick_index_sym() {
+    let a = [sc_w0().it, sc_w2().it, sc_str1().it];
+    let doc = lay_array(&a);
+    let offs = array_offsets(0, &a);
+    let (idx, is_last, v) = any_index(-4, 4);
+    let want = resolve(is_last, v, 3);
+    let ix = vec![ArrayIndex::Index(idx)];
+    let sel = selector0();
+    let mut q = VecDeque::new();
+    assert!(sel.select_by_indices(doc.as_slice(), 0, &ix, &mut q).is_ok());
+    if want < 0 || want > 2 {
+        assert!(q.len() == 0);
+    } else {
+        assert!(q.len() == 1);
+        if want == 0 {
+            expect_pos(&mut q, &a[0], offs[0]);
+        } else if want == 1 {
+            expect_pos(&mut q, &a[1], offs[1]);
+        } else {
+            expect_pos(&mut q, &a[2], offs[2]);
+        }
+    }
+}
+
+/// C08 convert_slice(start, end, len) for start, end each `n` or `last + n` (n in -4..=4) and len in 1..=4: the
+/// ascending list of every i with start <= i <= end and 0 <= i < len, or None when that list is empty
+#[kani::proof]
+#[kani::unwind(6)]
+fn ks_convert_slice() {
+    let (s, sl, sv) = any_index(-4, 4);
+    let (e, el, ev) = any_index(-4, 4);
+    let len: i32 = kani::any();
+    kani::assume(len >= 1 && len <= 4);
+    let lo = resolve(sl, sv, len as i64);
+    let hi = resolve(el, ev, len as i64);
+    let r = Selector::convert_slice(&s, &e, len);
+    let mut want = [0usize; 4];
+    let mut n = 0;
+    let mut i = 0;
+    while i < 4 {
+        if (i as i64) < len as i64 && lo <= i as i64 && i as i64 <= hi {
+            want[n] = i;
+            n += 1;
+        }
+        i += 1;
+    }
+    match r {
+        None => assert!(n == 0),
+        Some(v) => {
+            assert!(n > 0 && v.len() == n);
+            i = 0;
+            while i < 4 {
+                if i < n {
+                    assert!(v[i] == want[i]);
+                }
+                i += 1;
+            }
+        }
+    }
+}
+
+/// C08 an array that does not start at offset 0: `[2, 0]` inside [w2, [str1, null|bool, str2]]: absolute offsets
+#[kani::proof]
+#[kani::unwind(6)]
+fn ks_pick_nested() {
+    let e = [sc_str1().it, sc_w0().it, sc_str2().it];
+    let inner = lay_array(&e);
+    let a = [sc_w2().it, cont(&inner)];
+    let doc = lay_array(&a);
+    let base = array_offsets(0, &a)[1];
+    let offs = array_offsets(base, &e);
+    let ix = vec![ArrayIndex::Index(Index::Index(2)), ArrayIndex::Index(Index::Index(0))];
+    let sel = selector0();
+    let mut q = VecDeque::new();
+    assert!(sel.select_by_indices(doc.as_slice(), base, &ix, &mut q).is_ok());
+    assert!(q.len() == 2);
+    expect_pos(&mut q, &e[2], offs[2]);
+    expect_pos(&mut q, &e[0], offs[0]);
+}
+
+fn name_of(k: &It) -> &str {
+    // keys are ASCII by construction
+    unsafe { std::str::from_utf8_unchecked(k.payload()) }
+}
+
+fn key_eq(a: &It, b: &It) -> bool {
+    a.plen == b.plen && (a.plen < 1 || a.pay[0] == b.pay[0]) && (a.plen < 2 || a.pay[1] == b.pay[1])
+}
+
+fn obj3() -> ([It; 3], [It; 3], Buf, [usize; 3]) {
+    let k = [key1(), key2(), key2()];
+    kani::assume(key_lt(&k[0], &k[1]) && key_lt(&k[1], &k[2]));
+    let v = [sc_w2().it, sc_w0().it, sc_str1().it];
+    let doc = lay_object(&k, &v);
+    // header, 6 entry words, 5 key bytes, then the values
+    let o0 = 4 + 24 + 5;
+    (k, v, doc, [o0, o0 + 2, o0 + 2])
+}
+
+fn body_pick_name(name_it: It) {
+    let (k, v, doc, offs) = obj3();
+    let sel = selector0();
+    let mut q = VecDeque::new();
+    assert!(sel.select_by_name(doc.as_slice(), 0, name_of(&name_it), &mut q).is_ok());
+    if key_eq(&k[0], &name_it) {
+        assert!(q.len() == 1);
+        expect_pos(&mut q, &v[0], offs[0]);
+    } else if key_eq(&k[1], &name_it) {
+        assert!(q.len() == 1);
+        expect_pos(&mut q, &v[1], offs[1]);
+    } else if key_eq(&k[2], &name_it) {
+        assert!(q.len() == 1);
+        expect_pos(&mut q, &v[2], offs[2]);
+    } else {
+        assert!(q.len() == 0);
+    }
+}
+
+/// C08 `.name` on {k1: w2, k2: null|bool, k2': str1} (key widths 1,2,2, sorted distinct keys), 2-byte name: the member
+/// with exactly that key (two keys share the name's length), or nothing
+#[kani::proof]
+#[kani::unwind(6)]
+fn ks_pick_name_w2() {
+    body_pick_name(key2());
+}
+
+/// the same with a 1-byte name
+#[kani::proof]
+#[kani::unwind(6)]
+fn ks_pick_name_w1() {
+    body_pick_name(key1());
+}
+
+/// C08 `.*` on the same objects: every member value in stored order; on an array: nothing
+#[kani::proof]
+#[kani::unwind(6)]
+fn ks_pick_dot_wildcard() {
+    let (_k, v, doc, offs) = obj3();
+    let sel = selector0();
+    let mut q = VecDeque::new();
+    assert!(sel.select_object_values(doc.as_slice(), 0, &mut q).is_ok());
+    assert!(q.len() == 3);
+    expect_pos(&mut q, &v[0], offs[0]);
+    expect_pos(&mut q, &v[1], offs[1]);
+    expect_pos(&mut q, &v[2], offs[2]);
+    let adoc = lay_array(&v);
+    assert!(sel.select_object_values(adoc.as_slice(), 0, &mut q).is_ok());
+    assert!(q.len() == 0);
+}
+
+/// C08 `[*]` on [float, null|bool, [str1], w2]: every element in order (a nested container among them); on an object
+/// and on a scalar document: the value itself (lax mode)
+#[kani::proof]
+#[kani::unwind(6)]
+fn ks_pick_bracket_wildcard() {
+    let inner = lay_array(&[sc_str1().it]);
+    let a = [f9(), sc_w0().it, cont(&inner), sc_w2().it];
+    let doc = lay_array(&a);
+    let offs = array_offsets(0, &a);
+    let sel = selector0();
+    let mut q = VecDeque::new();
+    assert!(sel.select_array_values(doc.as_slice(), 0, doc.n, &mut q).is_ok());
+    assert!(q.len() == 4);
+    expect_pos(&mut q, &a[0], offs[0]);
+    expect_pos(&mut q, &a[1], offs[1]);
+    expect_pos(&mut q, &a[2], offs[2]);
+    expect_pos(&mut q, &a[3], offs[3]);
+    let odoc = lay_object(&[key1()], &[sc_w0().it]);
+    assert!(sel.select_array_values(odoc.as_slice(), 0, odoc.n, &mut q).is_ok());
+    assert!(q.len() == 1);
+    match q.pop_front() {
+        Some(Position::Container((o, l))) => assert!(o == 0 && l == odoc.n),
+        _ => { assert!(false); }
+    }
+    let sdoc = layout_scalar(&sc_str2().it);
+    assert!(sel.select_array_values(sdoc.as_slice(), 0, sdoc.n, &mut q).is_ok());
+    assert!(q.len() == 1);
+    match q.pop_front() {
+        Some(Position::Container((o, l))) => assert!(o == 0 && l == sdoc.n),
+        _ => { assert!(false); }
+    }
+}
+
+// ------------------------------------------------------------------ result building through the real `select`
+// positions handed to `select` by the find_positions stub: (is_scalar, type, offset, length)
+static mut FP: [(bool, u32, usize, usize); 3] = [(false, 0, 0, 0); 3];
+static mut FPN: usize = 0;
+
+fn fp_stub<'a>(
+    _this: &'a Selector<'a>,
+    _root: &'a [u8],
+    _current: Option<&Position>,
+    _paths: &[Path<'a>],
+) -> Result<VecDeque<Position>, Error>
+where
+    'a: 'a, // makes 'a early-bound, like the lifetime parameter of `impl<'a> Selector<'a>`
+{
+    let mut q = VecDeque::new();
+    let mut i = 0;
+    while i < 3 {
+        unsafe {
+            if i < FPN {
+                let (s, ty, o, l) = FP[i];
+                q.push_back(if s { Position::Scalar((ty, o, l)) } else { Position::Container((o, l)) });
+            }
+        }
+        i += 1;
+    }
+    Ok(q)
+}
+
+fn set_positions(items: &[It], offs: &[usize]) {
+    assert!(items.len() <= 3 && offs.len() == items.len());
+    unsafe {
+        FPN = items.len();
+        let mut i = 0;
+        while i < items.len() {
+            FP[i] = (items[i].ty() != T_CONTAINER, items[i].ty(), offs[i], items[i].plen);
+            i += 1;
+        }
+    }
+}
+
 const NPRE: usize = 3; // bytes already in `data` before the call: 0xAA, a symbolic byte, 0x55; `offsets` already holds [3]
-const MAXR: usize = 4; // capacity of an expected-result list
 
 struct Out {
     data: Vec<u8>,
     offsets: Vec<u64>,
     pre: u8,
+}
+
+fn plain_path() -> JsonPath<'static> {
+    JsonPath { paths: vec![Path::Root, Path::BracketWildcard] }
 }
 
 fn run_select(path: JsonPath<'_>, mode: Mode, root: &[u8]) -> Out {
@@ -26,535 +485,243 @@ fn run_select(path: JsonPath<'_>, mode: Mode, root: &[u8]) -> Out {
     Out { data, offsets, pre }
 }
 
-fn run_exists(path: JsonPath<'_>, root: &[u8]) -> bool {
-    let sel = Selector::new(path, Mode::Mixed);
-    let r = sel.exists(root);
-    assert!(r.is_ok());
-    r.unwrap()
-}
-
 fn prior_untouched(o: &Out) {
     assert!(o.data.len() >= NPRE && o.data[0] == 0xAA && o.data[1] == o.pre && o.data[2] == 0x55);
     assert!(o.offsets.len() >= 1 && o.offsets[0] == NPRE as u64);
 }
 
-/// an expected result list: want[..n]
-#[derive(Clone, Copy)]
-struct Want {
-    it: [It; MAXR],
-    n: usize,
-}
-
-impl Want {
-    fn new(fill: It) -> Want {
-        Want { it: [fill; MAXR], n: 0 }
-    }
-    fn push(&mut self, x: It) {
-        assert!(self.n < MAXR);
-        self.it[self.n] = x;
-        self.n += 1;
-    }
-}
-
-/// Mode::All (and First / Mixed with < 2 items): appended data == concatenation of the items' stand-alone documents in
-/// order; one offset per item == the absolute end position of that item in `data`; prior contents untouched
-fn check_items(o: &Out, w: &Want) {
+/// Mode::All shape: appended data == concatenation of the items' stand-alone documents in order; one offset per item
+/// == the ABSOLUTE end position of that item in `data`; prior contents untouched
+fn check_items(o: &Out, w: &[It]) {
+    assert!(w.len() <= 3);
     prior_untouched(o);
-    assert!(o.offsets.len() == 1 + w.n);
+    assert!(o.offsets.len() == 1 + w.len());
     let mut pos = NPRE;
     let mut k = 0;
-    while k < w.n {
-        let d = w.it[k].doc();
-        let end = pos + d.n;
-        assert!(o.offsets[k + 1] == end as u64);
-        assert!(end <= o.data.len());
-        assert!(d.eq_slice(&o.data[pos..end]));
-        pos = end;
+    while k < w.len() {
+        let d = doc_of(&w[k]);
+        assert!(o.offsets[k + 1] == (pos + d.n) as u64);
+        assert!(eq_at(&d, &o.data, pos));
+        pos += d.n;
         k += 1;
     }
     assert!(o.data.len() == pos);
 }
 
-/// Mode::Array (and Mixed with >= 2 items): appended data == README array of the items; exactly one offset == data.len()
-fn check_array(o: &Out, w: &Want) {
+/// Mode::Array shape: appended data == README array of the items; exactly one new offset == data.len()
+fn check_array(o: &Out, w: &[It]) {
     prior_untouched(o);
-    let d = layout_array(&w.it[..w.n]);
+    let d = lay_array(w);
     assert!(o.offsets.len() == 2);
     assert!(o.data.len() == NPRE + d.n);
     assert!(o.offsets[1] == (NPRE + d.n) as u64);
-    assert!(d.eq_slice(&o.data[NPRE..]));
+    assert!(eq_at(&d, &o.data, NPRE));
 }
 
-fn check_first(o: &Out, w: &Want) {
-    let mut f = *w;
-    if f.n > 1 {
-        f.n = 1;
-    }
-    check_items(o, &f);
-}
-
-fn check_mixed(o: &Out, w: &Want) {
-    if w.n >= 2 {
-        check_array(o, w);
-    } else {
-        check_items(o, w);
-    }
-}
-
-/// the elements selected by `lo to hi` out of `len`: every i with lo <= i <= hi, ascending (set-comprehension form)
-fn push_range(w: &mut Want, a: &[It], lo: i64, hi: i64) {
-    let mut i = 0;
-    while i < a.len() {
-        if lo <= i as i64 && i as i64 <= hi {
-            w.push(a[i]);
-        }
-        i += 1;
-    }
-}
-
-fn any_index(lo: i32, hi: i32) -> (Index, bool, i32) {
-    let is_last: bool = kani::any();
-    let v: i32 = kani::any();
-    kani::assume(v >= lo && v <= hi);
-    (if is_last { Index::LastIndex(v) } else { Index::Index(v) }, is_last, v)
-}
-
-fn resolve(is_last: bool, v: i32, len: usize) -> i64 {
-    if is_last { len as i64 - 1 + v as i64 } else { v as i64 }
-}
-
-fn root_indices(ix: Vec<ArrayIndex>) -> JsonPath<'static> {
-    JsonPath { paths: vec![Path::Root, Path::ArrayIndices(ix)] }
-}
-
-// two width profiles for arrays of four scalars: payload widths 2,0,1,9 and 9,2,0,2
-fn arr_a() -> [It; 4] {
-    [sc_w2().it, sc_w0().it, sc_str1().it, sc_float9().it]
-}
-fn arr_b() -> [It; 4] {
-    [sc_float9().it, sc_str2().it, sc_w0().it, sc_num2().it]
-}
-fn arr_c() -> [It; 3] {
-    [sc_w0().it, sc_w2().it, sc_w0().it]
-}
-
-// ------------------------------------------------------------------ $[i] / $[last + k]
-fn body_index1(a: &[It]) {
-    let doc = layout_array(a);
-    let (idx, is_last, v) = any_index(-5, 5);
-    let o = run_select(root_indices(vec![ArrayIndex::Index(idx)]), Mode::All, doc.as_slice());
-    let mut w = Want::new(a[0]);
-    if let Some(i) = spec_convert_index(is_last, v, a.len() as i32) {
-        w.push(a[i]);
-    }
-    check_items(&o, &w);
-}
-
-/// `$[i]`, `$[last]`, `$[last - k]`, `$[last + k]`, i,k in -5..=5, arrays of widths 2,0,1,9
+/// C15/C17 no result: All, First and Mixed append nothing; Array appends the empty array and one offset; exists is false
 #[kani::proof]
-#[kani::unwind(50)]
-fn ks_index1_a() {
-    body_index1(&arr_a());
+#[kani::unwind(6)]
+#[kani::stub(Selector::find_positions, fp_stub)]
+fn ks_modes_0() {
+    let a = [sc_w0().it, sc_str2().it];
+    let doc = lay_array(&a);
+    set_positions(&[], &[]);
+    check_items(&run_select(plain_path(), Mode::All, doc.as_slice()), &[]);
+    check_items(&run_select(plain_path(), Mode::First, doc.as_slice()), &[]);
+    check_items(&run_select(plain_path(), Mode::Mixed, doc.as_slice()), &[]);
+    check_array(&run_select(plain_path(), Mode::Array, doc.as_slice()), &[]);
+    assert!(Selector::new(plain_path(), Mode::Mixed).exists(doc.as_slice()) == Ok(false));
 }
 
-/// the same on arrays of widths 9,2,0,2
+/// C15/C17 one PAYLOAD-LESS result (null|true|false, element 0 of [w0, str2]): All, First and Mixed append its
+/// scalar document and one offset; exists is true
 #[kani::proof]
-#[kani::unwind(50)]
-fn ks_index1_b() {
-    body_index1(&arr_b());
+#[kani::unwind(6)]
+#[kani::stub(Selector::find_positions, fp_stub)]
+fn ks_modes_1() {
+    let a = [sc_w0().it, sc_str2().it];
+    let doc = lay_array(&a);
+    let offs = array_offsets(0, &a);
+    set_positions(&[a[0]], &[offs[0]]);
+    let m: u8 = kani::any();
+    kani::assume(m < 3);
+    let mode = if m == 0 { Mode::All } else if m == 1 { Mode::First } else { Mode::Mixed };
+    check_items(&run_select(plain_path(), mode, doc.as_slice()), &[a[0]]);
+    assert!(Selector::new(plain_path(), Mode::Mixed).exists(doc.as_slice()) == Ok(true));
 }
 
-// ------------------------------------------------------------------ $[i, j] incl. repeated, descending, out of range
-fn body_index2(a: &[It]) {
-    let doc = layout_array(a);
-    let (i0, l0, v0) = any_index(-3, 4);
-    let (i1, l1, v1) = any_index(-3, 4);
-    let o = run_select(root_indices(vec![ArrayIndex::Index(i0), ArrayIndex::Index(i1)]), Mode::All, doc.as_slice());
-    let mut w = Want::new(a[0]);
-    if let Some(i) = spec_convert_index(l0, v0, a.len() as i32) {
-        w.push(a[i]);
-    }
-    if let Some(i) = spec_convert_index(l1, v1, a.len() as i32) {
-        w.push(a[i]);
-    }
-    check_items(&o, &w);
-}
-
+/// C15/C17 one result, Mode::Array: a one-element array
 #[kani::proof]
-#[kani::unwind(50)]
-fn ks_index2_a() {
-    body_index2(&arr_a());
+#[kani::unwind(6)]
+#[kani::stub(Selector::find_positions, fp_stub)]
+fn ks_modes_1_array() {
+    let a = [sc_w0().it, sc_str2().it];
+    let doc = lay_array(&a);
+    let offs = array_offsets(0, &a);
+    set_positions(&[a[1]], &[offs[1]]);
+    check_array(&run_select(plain_path(), Mode::Array, doc.as_slice()), &[a[1]]);
 }
 
+/// C15/C17 two results (a payload-less item, then a 2-byte item), Mode::All: both documents, offsets are running
+/// ABSOLUTE end positions; Mode::First: the first item of the All result only
 #[kani::proof]
-#[kani::unwind(50)]
-fn ks_index2_b() {
-    body_index2(&arr_b());
+#[kani::unwind(6)]
+#[kani::stub(Selector::find_positions, fp_stub)]
+fn ks_modes_2_all_first() {
+    let a = [sc_w0().it, sc_w2().it];
+    let doc = lay_array(&a);
+    let offs = array_offsets(0, &a);
+    set_positions(&[a[0], a[1]], &[offs[0], offs[1]]);
+    check_items(&run_select(plain_path(), Mode::All, doc.as_slice()), &[a[0], a[1]]);
+    check_items(&run_select(plain_path(), Mode::First, doc.as_slice()), &[a[0]]);
 }
 
-// ------------------------------------------------------------------ $[a to b]
-fn body_slice(a: &[It]) {
-    let doc = layout_array(a);
-    let (s, sl, sv) = any_index(-4, 4);
-    let (e, el, ev) = any_index(-4, 4);
-    let o = run_select(root_indices(vec![ArrayIndex::Slice((s, e))]), Mode::All, doc.as_slice());
-    let mut w = Want::new(a[0]);
-    push_range(&mut w, a, resolve(sl, sv, a.len()), resolve(el, ev, a.len()));
-    check_items(&o, &w);
-}
-
-/// `$[a to b]` with a, b each `n` or `last + n`, n in -4..=4: empty, one-element, end-touching and over-long ranges
+/// C15/C17 two results, Mode::Array and Mode::Mixed: the README array [item0, item1] and exactly one offset
 #[kani::proof]
-#[kani::unwind(50)]
-fn ks_slice_a() {
-    body_slice(&arr_a());
+#[kani::unwind(6)]
+#[kani::stub(Selector::find_positions, fp_stub)]
+fn ks_modes_2_array_mixed() {
+    let a = [sc_w0().it, sc_w2().it];
+    let doc = lay_array(&a);
+    let offs = array_offsets(0, &a);
+    set_positions(&[a[0], a[1]], &[offs[0], offs[1]]);
+    let mode = if kani::any() { Mode::Array } else { Mode::Mixed };
+    check_array(&run_select(plain_path(), mode, doc.as_slice()), &[a[0], a[1]]);
 }
 
+/// C15 results in path order that is not document order, with a nested container and a 9-byte item:
+/// [float, [null|bool], str1] selected as (2, 1, 0), Mode::All
 #[kani::proof]
-#[kani::unwind(50)]
-fn ks_slice_b() {
-    body_slice(&arr_b());
+#[kani::unwind(6)]
+#[kani::stub(Selector::find_positions, fp_stub)]
+fn ks_build_values_wide() {
+    let inner = lay_array(&[sc_w0().it]);
+    let a = [f9(), cont(&inner), sc_str1().it];
+    let doc = lay_array(&a);
+    let offs = array_offsets(0, &a);
+    set_positions(&[a[2], a[1], a[0]], &[offs[2], offs[1], offs[0]]);
+    check_items(&run_select(plain_path(), Mode::All, doc.as_slice()), &[a[2], a[1], a[0]]);
 }
 
-/// `$[i, a to b]` and `$[a to b, i]` on three elements (widths 0,2,0): order of the items follows the path, not the array
+/// C15 the same selection as an array (Mode::Array): entry words and payloads of a container, a 9-byte and a 1-byte item
 #[kani::proof]
-#[kani::unwind(50)]
-fn ks_slice_mixed() {
-    let a = arr_c();
-    let doc = layout_array(&a);
-    let (s, sl, sv) = any_index(-1, 3);
-    let (e, el, ev) = any_index(-2, 2);
-    let i: i32 = kani::any();
-    kani::assume(i >= 0 && i <= 3);
-    let first: bool = kani::any();
-    let ix = if first {
-        vec![ArrayIndex::Index(Index::Index(i)), ArrayIndex::Slice((s, e))]
-    } else {
-        vec![ArrayIndex::Slice((s, e)), ArrayIndex::Index(Index::Index(i))]
-    };
-    let o = run_select(root_indices(ix), Mode::All, doc.as_slice());
-    let mut w = Want::new(a[0]);
-    if first {
-        if i < 3 {
-            w.push(a[i as usize]);
-        }
-    }
-    push_range(&mut w, &a, resolve(sl, sv, 3), resolve(el, ev, 3));
-    if !first {
-        if i < 3 {
-            w.push(a[i as usize]);
-        }
-    }
-    check_items(&o, &w);
+#[kani::unwind(6)]
+#[kani::stub(Selector::find_positions, fp_stub)]
+fn ks_build_array_wide() {
+    let inner = lay_array(&[sc_w0().it]);
+    let a = [f9(), cont(&inner), sc_str1().it];
+    let doc = lay_array(&a);
+    let offs = array_offsets(0, &a);
+    set_positions(&[a[2], a[1], a[0]], &[offs[2], offs[1], offs[0]]);
+    check_array(&run_select(plain_path(), Mode::Array, doc.as_slice()), &[a[2], a[1], a[0]]);
 }
 
-// ------------------------------------------------------------------ $.name / $.* / $[*]
-fn key_eq(a: &It, b: &It) -> bool {
-    a.plen == b.plen && (a.plen < 1 || a.pay[0] == b.pay[0]) && (a.plen < 2 || a.pay[1] == b.pay[1])
-}
-
-fn name_of(k: &It) -> &str {
-    // keys are ASCII by construction
-    unsafe { std::str::from_utf8_unchecked(k.payload()) }
-}
-
-fn field<'a>(kind: u8, name: &'a str) -> Path<'a> {
-    match kind {
-        0 => Path::DotField(Cow::Borrowed(name)),
-        1 => Path::ColonField(Cow::Borrowed(name)),
-        _ => Path::ObjectField(Cow::Borrowed(name)),
-    }
-}
-
-/// `$.name`, `$:name`, `$["name"]` on objects {k1: w2, k2: w0, k2': str1} (key widths 1,2,2; sorted distinct keys),
-/// name of width 1 or 2: the member with exactly that key, or nothing
-#[kani::proof]
-#[kani::unwind(50)]
-fn ks_name3() {
-    let k = [key1(), key2(), key2()];
-    kani::assume(key_lt(&k[0], &k[1]) && key_lt(&k[1], &k[2]));
-    let v = [sc_w2().it, sc_w0().it, sc_str1().it];
-    let doc = layout_object(&k, &v);
-    let name_it = if kani::any() { key2() } else { key1() };
-    let kind: u8 = kani::any();
-    kani::assume(kind < 3);
-    let path = JsonPath { paths: vec![Path::Root, field(kind, name_of(&name_it))] };
-    let o = run_select(path, Mode::All, doc.as_slice());
-    let mut w = Want::new(v[0]);
-    let mut j = 0;
-    while j < 3 {
-        if key_eq(&k[j], &name_it) {
-            w.push(v[j]);
-        }
-        j += 1;
-    }
-    check_items(&o, &w);
-}
-
-/// `$.*` on objects {k1: float9, k2: w0, k2': w2}: every member value in stored order; on an array: nothing
-#[kani::proof]
-#[kani::unwind(50)]
-fn ks_dot_wildcard() {
-    let k = [key1(), key2(), key2()];
-    let v = [sc_float9().it, sc_w0().it, sc_w2().it];
-    let doc = layout_object(&k, &v);
-    let o = run_select(JsonPath { paths: vec![Path::Root, Path::DotWildcard] }, Mode::All, doc.as_slice());
-    let mut w = Want::new(v[0]);
-    w.push(v[0]);
-    w.push(v[1]);
-    w.push(v[2]);
-    check_items(&o, &w);
-    let adoc = layout_array(&v);
-    let o2 = run_select(JsonPath { paths: vec![Path::Root, Path::DotWildcard] }, Mode::All, adoc.as_slice());
-    check_items(&o2, &Want::new(v[0]));
-}
-
-/// `$[*]` on an array of widths 2,0,1,9: every element in order
-#[kani::proof]
-#[kani::unwind(50)]
-fn ks_bracket_wildcard_array() {
-    let a = arr_a();
-    let doc = layout_array(&a);
-    let o = run_select(JsonPath { paths: vec![Path::Root, Path::BracketWildcard] }, Mode::All, doc.as_slice());
-    let mut w = Want::new(a[0]);
-    push_range(&mut w, &a, 0, 3);
-    check_items(&o, &w);
-}
-
-/// `$[*]` on a non-array (object {k: str1|w0}, scalar document): the value itself, unchanged (lax mode)
-#[kani::proof]
-#[kani::unwind(50)]
-fn ks_bracket_wildcard_lax() {
-    let k = [key1()];
-    let v = [if kani::any() { sc_str1().it } else { sc_w0().it }];
-    let obj = it_object(&k, &v);
-    let doc = obj.doc();
-    let o = run_select(JsonPath { paths: vec![Path::Root, Path::BracketWildcard] }, Mode::All, doc.as_slice());
-    let mut w = Want::new(obj);
-    w.push(obj);
-    check_items(&o, &w);
-    let s = if kani::any() { sc_w2().it } else { sc_w0().it };
-    let sdoc = layout_scalar(&s);
-    let o2 = run_select(JsonPath { paths: vec![Path::Root, Path::BracketWildcard] }, Mode::All, sdoc.as_slice());
-    let mut w2 = Want::new(s);
-    w2.push(s);
-    check_items(&o2, &w2);
-}
-
-/// two steps: `$[*][*]` on [w0, [str1, w0], str2] (scalars pass the second `[*]` unchanged, the nested array is
-/// unwrapped) and `$.k[i]` on {k: [w2, str1, w0]} (a container that does not start at offset 0)
-#[kani::proof]
-#[kani::unwind(50)]
-fn ks_two_steps() {
-    let inner = [sc_str1().it, sc_w0().it];
-    let a = [sc_w0().it, it_array(&inner), sc_str2().it];
-    let doc = layout_array(&a);
-    let p = JsonPath { paths: vec![Path::Root, Path::BracketWildcard, Path::BracketWildcard] };
-    let o = run_select(p, Mode::All, doc.as_slice());
-    let mut w = Want::new(a[0]);
-    w.push(a[0]);
-    w.push(inner[0]);
-    w.push(inner[1]);
-    w.push(a[2]);
-    check_items(&o, &w);
-
-    let e = [sc_w2().it, sc_str1().it, sc_w0().it];
-    let k = [key1()];
-    let odoc = layout_object(&k, &[it_array(&e)]);
-    let (idx, is_last, v) = any_index(-3, 3);
-    let p2 = JsonPath {
-        paths: vec![Path::Root, field(0, name_of(&k[0])), Path::ArrayIndices(vec![ArrayIndex::Index(idx)])],
-    };
-    let o2 = run_select(p2, Mode::All, odoc.as_slice());
-    let mut w2 = Want::new(e[0]);
-    if let Some(i) = spec_convert_index(is_last, v, 3) {
-        w2.push(e[i]);
-    }
-    check_items(&o2, &w2);
-}
-
-// ------------------------------------------------------------------ modes on one path with 0..3 results
-fn mode_path(s: i32, e: i32) -> JsonPath<'static> {
-    root_indices(vec![ArrayIndex::Slice((Index::Index(s), Index::Index(e)))])
-}
-
-fn mode_case() -> ([It; 3], Buf, i32, i32, Want) {
-    let a = arr_c();
-    let doc = layout_array(&a);
-    let s: i32 = kani::any();
-    let e: i32 = kani::any();
-    kani::assume(s >= 0 && s <= 3 && e >= 0 && e <= 2);
-    let mut w = Want::new(a[0]);
-    push_range(&mut w, &a, s as i64, e as i64);
-    (a, doc, s, e, w)
-}
-
-/// Mode::First on `$[s to e]` over [w0, w2, w0] (0..=3 results, payload-less items included): the first item of the
-/// Mode::All result or nothing; Mode::All itself is checked against the element list
-#[kani::proof]
-#[kani::unwind(50)]
-fn ks_mode_first() {
-    let (_a, doc, s, e, w) = mode_case();
-    let all = run_select(mode_path(s, e), Mode::All, doc.as_slice());
-    check_items(&all, &w);
-    let first = run_select(mode_path(s, e), Mode::First, doc.as_slice());
-    check_first(&first, &w);
-    // stated on the two outputs directly
-    if all.offsets.len() == 1 {
-        assert!(first.offsets.len() == 1 && first.data.len() == NPRE);
-    } else {
-        let end = all.offsets[1] as usize;
-        assert!(first.offsets.len() == 2 && first.offsets[1] == all.offsets[1] && first.data.len() == end);
-        assert!(first.data[NPRE..end] == all.data[NPRE..end]);
-    }
-}
-
-/// Mode::Array: README array of the Mode::All items (an empty array for no item) and exactly one offset
-#[kani::proof]
-#[kani::unwind(50)]
-fn ks_mode_array() {
-    let (_a, doc, s, e, w) = mode_case();
-    let arr = run_select(mode_path(s, e), Mode::Array, doc.as_slice());
-    check_array(&arr, &w);
-}
-
-/// Mode::Mixed: like Array for >= 2 items, like All otherwise; `exists` == (All result non-empty)
-#[kani::proof]
-#[kani::unwind(50)]
-fn ks_mode_mixed_exists() {
-    let (_a, doc, s, e, w) = mode_case();
-    let mixed = run_select(mode_path(s, e), Mode::Mixed, doc.as_slice());
-    check_mixed(&mixed, &w);
-    assert!(run_exists(mode_path(s, e), doc.as_slice()) == (w.n > 0));
-}
-
-/// modes with items of width 9 / 2 and a nested container among the results: `$[*]` on [float9, [w0], str2]
-#[kani::proof]
-#[kani::unwind(50)]
-fn ks_mode_array_wide() {
-    let inner = [sc_w0().it];
-    let a = [sc_float9().it, it_array(&inner), sc_str2().it];
-    let doc = layout_array(&a);
-    let mut w = Want::new(a[0]);
-    push_range(&mut w, &a, 0, 2);
-    let m = if kani::any() { Mode::Array } else { Mode::Mixed };
-    let arr = run_select(JsonPath { paths: vec![Path::Root, Path::BracketWildcard] }, m, doc.as_slice());
-    check_array(&arr, &w);
-}
-
-// ------------------------------------------------------------------ predicate path
-fn pred_path<'a>(name: &'a str, lit: bool) -> JsonPath<'a> {
+// ------------------------------------------------------------------ predicate paths
+fn pred_path() -> JsonPath<'static> {
     JsonPath {
         paths: vec![Path::Predicate(Box::new(Expr::BinaryOp {
             op: BinaryOperator::Eq,
-            left: Box::new(Expr::Paths(vec![Path::Root, Path::DotField(Cow::Borrowed(name))])),
-            right: Box::new(Expr::Value(Box::new(PathValue::Boolean(lit)))),
+            left: Box::new(Expr::Paths(vec![Path::Root, Path::DotField(Cow::Borrowed("k"))])),
+            right: Box::new(Expr::Value(Box::new(PathValue::Boolean(true)))),
         }))],
     }
 }
 
-fn any_mode() -> Mode {
-    let m: u8 = kani::any();
-    kani::assume(m < 4);
-    match m {
-        0 => Mode::First,
-        1 => Mode::Array,
-        2 => Mode::All,
-        _ => Mode::Mixed,
-    }
-}
-
-/// predicate `$.name == true|false` on {k1: null|true|false, k2: str1}: whatever the mode, `select` appends exactly the
-/// boolean scalar document and exactly one offset; `predicate_match` returns the same boolean; `exists` is true;
+/// C17 predicate path: whatever the mode, `select` appends exactly the boolean scalar document (true iff the predicate
+/// kept the root) and exactly one offset; `predicate_match` returns the same boolean; `exists` is true;
 /// `predicate_match` on a non-predicate path is an error
 #[kani::proof]
-#[kani::unwind(50)]
+#[kani::unwind(6)]
+#[kani::stub(Selector::find_positions, fp_stub)]
 fn ks_predicate() {
-    let k = [key1(), key2()];
-    let v0 = sc_w0();
-    let v = [v0.it, sc_str1().it];
-    let doc = layout_object(&k, &v);
-    let name_it = key1();
-    let lit: bool = kani::any();
-    let expect = key_eq(&k[0], &name_it) && ((lit && v0.kind == 1) || (!lit && v0.kind == 2));
-    let o = run_select(pred_path(name_of(&name_it), lit), any_mode(), doc.as_slice());
-    let mut w = Want::new(v[0]);
-    w.push(It { word: if expect { T_TRUE } else { T_FALSE }, pay: [0u8; PAYMAX], plen: 0 });
-    check_items(&o, &w);
-    let sel = Selector::new(pred_path(name_of(&name_it), lit), Mode::First);
-    assert!(sel.predicate_match(doc.as_slice()) == Ok(expect));
+    let doc = lay_object(&[key1()], &[sc_w0().it]);
+    let holds: bool = kani::any();
+    if holds {
+        unsafe {
+            FPN = 1;
+            FP[0] = (false, 0, 0, doc.n);
+        }
+    } else {
+        set_positions(&[], &[]);
+    }
+    let m: u8 = kani::any();
+    kani::assume(m < 4);
+    let mode = if m == 0 { Mode::All } else if m == 1 { Mode::First } else if m == 2 { Mode::Array } else { Mode::Mixed };
+    let o = run_select(pred_path(), mode, doc.as_slice());
+    let b = It { word: if holds { T_TRUE } else { T_FALSE }, pay: [0u8; PAYMAX], plen: 0 };
+    check_items(&o, &[b]);
+    let sel = Selector::new(pred_path(), Mode::First);
+    assert!(sel.predicate_match(doc.as_slice()) == Ok(holds));
     assert!(sel.exists(doc.as_slice()) == Ok(true));
-    let plain = Selector::new(JsonPath { paths: vec![Path::Root, Path::DotWildcard] }, Mode::First);
-    assert!(plain.predicate_match(doc.as_slice()).is_err());
+    assert!(Selector::new(plain_path(), Mode::First).predicate_match(doc.as_slice()).is_err());
 }
 
-// ------------------------------------------------------------------ filter steps
-/// `$[*]?(@.name == true)` on [{k: null|true|false}, {k': null|true|false}]: the member objects that satisfy the filter,
-/// verbatim and in order
-#[kani::proof]
-#[kani::unwind(50)]
-fn ks_filter_eq() {
-    let k = [key1(), key1()];
-    let v = [sc_w0(), sc_w0()];
-    let objs = [it_object(&[k[0]], &[v[0].it]), it_object(&[k[1]], &[v[1].it])];
-    let doc = layout_array(&objs);
-    let name_it = key1();
-    let name = name_of(&name_it);
-    let path = JsonPath {
-        paths: vec![
-            Path::Root,
-            Path::BracketWildcard,
-            Path::FilterExpr(Box::new(Expr::BinaryOp {
-                op: BinaryOperator::Eq,
-                left: Box::new(Expr::Paths(vec![Path::Current, Path::DotField(Cow::Borrowed(name))])),
-                right: Box::new(Expr::Value(Box::new(PathValue::Boolean(true)))),
-            })),
-        ],
-    };
-    let o = run_select(path, Mode::All, doc.as_slice());
-    let mut w = Want::new(objs[0]);
-    let mut j = 0;
-    while j < 2 {
-        if key_eq(&k[j], &name_it) && v[j].kind == 1 {
-            w.push(objs[j]);
-        }
-        j += 1;
+// ------------------------------------------------------------------ filter comparison semantics
+fn num(v: i8, unsigned: bool) -> PathValue<'static> {
+    if unsigned && v >= 0 { PathValue::Number(Number::UInt64(v as u64)) } else { PathValue::Number(Number::Int64(v as i64)) }
+}
+
+fn any_cmp_op() -> (BinaryOperator, u8) {
+    let k: u8 = kani::any();
+    kani::assume(k < 6);
+    (
+        match k {
+            0 => BinaryOperator::Eq,
+            1 => BinaryOperator::NotEq,
+            2 => BinaryOperator::Lt,
+            3 => BinaryOperator::Lte,
+            4 => BinaryOperator::Gt,
+            _ => BinaryOperator::Gte,
+        },
+        k,
+    )
+}
+
+fn op_holds(k: u8, l: i8, r: i8) -> bool {
+    match k {
+        0 => l == r,
+        1 => l != r,
+        2 => l < r,
+        3 => l <= r,
+        4 => l > r,
+        _ => l >= r,
     }
-    check_items(&o, &w);
 }
 
-/// `$[*]?(c < @.k)` / `$[*]?(c >= @.k)` (literal on the LEFT) on [{k: n0}, {k: n1}], n small Int64/UInt64, c in -3..=3
+/// C08 `literal op value` and `value op literal` on small integers (Int64 / UInt64 encodings mixed): the operator is
+/// applied with the operands in the WRITTEN order (a literal on the left is not swapped); booleans (false < true) and
+/// null likewise
 #[kani::proof]
-#[kani::unwind(50)]
-fn ks_filter_ord() {
-    let key = key1();
-    let v = [sc_num2(), sc_num2()];
-    let objs = [it_object(&[key], &[v[0].it]), it_object(&[key], &[v[1].it])];
-    let doc = layout_array(&objs);
+#[kani::unwind(6)]
+fn ks_compare_value() {
+    let sel = selector0();
+    let l: i8 = kani::any();
+    let r: i8 = kani::any();
+    kani::assume(l >= -3 && l <= 3 && r >= -3 && r <= 3);
+    let (op, k) = any_cmp_op();
+    assert!(sel.compare_value(&op, num(l, kani::any()), num(r, kani::any())) == op_holds(k, l, r));
+    let t: bool = kani::any();
+    let u: bool = kani::any();
+    assert!(sel.compare_value(&op, PathValue::Boolean(t), PathValue::Boolean(u)) == op_holds(k, t as i8, u as i8));
+    assert!(sel.compare_value(&op, PathValue::Null, PathValue::Null) == op_holds(k, 0, 0));
+}
+
+/// C08 existential comparison over the values a path produced: `lit op @.path` holds iff it holds for SOME value
+/// (literal on the left), `@.path op lit` likewise (literal on the right); no value: false
+#[kani::proof]
+#[kani::unwind(6)]
+fn ks_compare_exists() {
+    let sel = selector0();
     let c: i8 = kani::any();
-    kani::assume(c >= -3 && c <= 3);
-    let lt: bool = kani::any();
-    let name = name_of(&key);
-    let path = JsonPath {
-        paths: vec![
-            Path::Root,
-            Path::BracketWildcard,
-            Path::FilterExpr(Box::new(Expr::BinaryOp {
-                op: if lt { BinaryOperator::Lt } else { BinaryOperator::Gte },
-                left: Box::new(Expr::Value(Box::new(PathValue::Number(Number::Int64(c as i64))))),
-                right: Box::new(Expr::Paths(vec![Path::Current, Path::DotField(Cow::Borrowed(name))])),
-            })),
-        ],
-    };
-    let o = run_select(path, Mode::All, doc.as_slice());
-    let mut w = Want::new(objs[0]);
-    let mut j = 0;
-    while j < 2 {
-        let holds = if lt { (c as i32) < v[j].num } else { (c as i32) >= v[j].num };
-        if holds {
-            w.push(objs[j]);
-        }
-        j += 1;
-    }
-    check_items(&o, &w);
+    let x: i8 = kani::any();
+    let y: i8 = kani::any();
+    kani::assume(c >= -2 && c <= 2 && x >= -2 && x <= 2 && y >= -2 && y <= 2);
+    let (op, k) = any_cmp_op();
+    let lit = ExprValue::Value(Box::new(num(c, false)));
+    let vals = ExprValue::Values(vec![num(x, false), PathValue::Boolean(true), num(y, false)]);
+    assert!(sel.compare(&op, &lit, &vals) == (op_holds(k, c, x) || op_holds(k, c, y)));
+    assert!(sel.compare(&op, &vals, &lit) == (op_holds(k, x, c) || op_holds(k, y, c)));
+    let none = ExprValue::Values(vec![]);
+    assert!(!sel.compare(&op, &lit, &none));
+    assert!(!sel.compare(&op, &none, &lit));
 }
